@@ -159,6 +159,21 @@ fn dispatch(name: &str, a: &mut Args) -> String {
 			);
 			r.iter().map(|v| v.to_string()).collect::<Vec<_>>().join(" ")
 		},
+		"inbound_state_table" => {
+			let (tag, reason, gbl) = (a.u8(), a.u8(), a.bool());
+			let r = lightning::verif::channel::inbound_state_table(tag, reason, gbl);
+			format!("{} {}", r[0] as u8, r[1] as u8)
+		},
+		"outbound_state_table" => {
+			let (tag, succ, gbl) = (a.u8(), a.bool(), a.bool());
+			let r = lightning::verif::channel::outbound_state_table(tag, succ, gbl);
+			format!("{} {}", r[0] as u8, r[1] as u8)
+		},
+		"next_commitment_probe" => {
+			let (inbound, tag, ros, local, unk) = (a.bool(), a.u8(), a.u8(), a.bool(), a.bool());
+			let r = lightning::verif::channel::next_commitment_probe(inbound, tag, ros, local, unk);
+			format!("{} {} {}", r[0], r[1], r[2])
+		},
 		_ => return format!("error unknown function {}", name),
 	}
 }
